@@ -28,8 +28,14 @@ def _inverse_name(name: str) -> str | None:
 
 def mapper_list(p, fn):
     """Names in the `mappers = [...]` list literal of a function (List/Tuple of names, or a module constant)."""
+    # the mapper list: the local that is handed to dict_mapper(...) (or iterated), whatever it is called
+    used = set()
+    for c in ast.walk(fn.node):
+        if isinstance(c, ast.Call) and (getattr(c.func, "id", None) == "dict_mapper" or getattr(c.func, "attr", None) == "dict_mapper"):
+            used |= {a.id for a in c.args if isinstance(a, ast.Name)} | {k.value.id for k in c.keywords if isinstance(k.value, ast.Name)}
     for n in ast.walk(fn.node):
-        if isinstance(n, ast.Assign) and any(isinstance(t, ast.Name) and t.id == "mappers" for t in n.targets):
+        if isinstance(n, ast.Assign) and any(isinstance(t, ast.Name) and (t.id == "mappers" or t.id in used) for t in n.targets) \
+                and (isinstance(n.value, (ast.List, ast.Tuple)) or (isinstance(n.value, ast.Name) and n.value.id.isupper())):
             v = n.value
             if isinstance(v, ast.Name):
                 r = p.resolve_name(fn.module, v.id)
